@@ -92,7 +92,11 @@ func (c *Config) SubgraphSDL(g *Subgraph) string {
 		typeDirs := ""
 		if st != nil {
 			for _, k := range st.Keys {
-				typeDirs += " @key(fields: \"" + k + "\")"
+				if st.Unresolvable {
+					typeDirs += " @key(fields: \"" + k + "\", resolvable: false)"
+				} else {
+					typeDirs += " @key(fields: \"" + k + "\")"
+				}
 			}
 		}
 		printType(&sb, t, typeDirs, func(f *FieldDef) string {
@@ -174,7 +178,7 @@ func (c *Config) Metadata(g *Subgraph) *plan.DataSourceMetadata {
 		}
 		for _, k := range st.Keys {
 			md.FederationMetaData.Keys = append(md.FederationMetaData.Keys,
-				plan.FederationFieldConfiguration{TypeName: st.Name, SelectionSet: k})
+				plan.FederationFieldConfiguration{TypeName: st.Name, SelectionSet: k, DisableEntityResolver: st.Unresolvable})
 		}
 		if isRoot || len(st.Keys) > 0 {
 			md.RootNodes = append(md.RootNodes, tf)
